@@ -9,7 +9,7 @@ from ..model.namespace import Universe
 from .base import Check, Outcome, InvalidScenario
 from . import wcommon as W
 
-DEFECTS = ["missing", "missver", "self", "cycle2", "cycle3", "cycle_expr", "case_short", "case_ns", "case_root", "dup"]
+DEFECTS = ["missing", "missver", "self", "cycle2", "cycle3", "cycle_expr", "case_short", "case_ns", "case_root", "dup", "case_twin", "case_twin"]
 
 
 def apply_defect(ws: dict, df: dict) -> tuple[dict, set[str]]:
@@ -76,6 +76,22 @@ def apply_defect(ws: dict, df: dict) -> tuple[dict, set[str]]:
         rname = tgt["name"].split(".")[0]
         ws["roots"].append({"dir": "w/dx/" + rname, "name": rname, "defs": [tgt], "dup": True})
         add_field(at, ["ref", tgt["name"], tgt["ver"][0], tgt["ver"][1]])
+    elif kind == "case_twin":
+        # two definitions whose names differ only by letter case exist side by side (case-sensitive file system), with other
+        # definitions sorting between them; a reference to either spelling differs from an existing name only by letter case
+        tgt = uni.defs[df["to"]]
+        twin = copy.deepcopy(tgt)
+        comps = tgt["name"].split(".")
+        alt = comps[-1].swapcase() if df.get("how", 0) % 2 == 0 else (comps[-1][0].lower() + comps[-1][1:])
+        if alt == comps[-1] or ".".join(comps[:-1] + [alt]).lower() != tgt["name"].lower():
+            raise InvalidScenario("no letters to swap")
+        twin["name"] = ".".join(comps[:-1] + [alt])
+        twin["port"] = None
+        if any(x["name"] == twin["name"] for x in uni.defs.values()):
+            raise InvalidScenario("twin exists")
+        ws["roots"][uni.root_of[df["to"]]]["defs"].append(twin)
+        name = tgt["name"] if df.get("spell", 0) % 2 == 0 else twin["name"]
+        add_field(at, ["ref", name, tgt["ver"][0], tgt["ver"][1]])
     else:
         raise InvalidScenario("unknown defect")
     return ws, bad
@@ -108,7 +124,9 @@ class C09(Check):
             df = {"kind": kind, "at": at, "sec": rng.randrange(2)}
             others = [k for k in msgs if k != at]
             ok = True
-            if kind in ("missver", "case_short", "case_ns", "case_root", "dup"):
+            if kind == "case_twin":
+                df["how"], df["spell"] = rng.randrange(2), rng.randrange(2)
+            if kind in ("missver", "case_short", "case_ns", "case_root", "dup", "case_twin"):
                 if others:
                     df["to"] = rng.choice(others)
                 else:
@@ -132,6 +150,15 @@ class C09(Check):
             troots = {uni.root_of[k] for k in targets}
             scn["reads"].append(W.rf_op(rng, uni, targets, [x for x in range(nroots) if x not in troots]))
         rng.shuffle(scn["reads"])
+        if scn["defect"] is None and rng.random() < 0.6:
+            # history: the same referrer is read again in the same process with a *different lookup set*: the root that holds one
+            # of its dependencies is withheld (must fail), replaced by another directory of the same namespace in which that
+            # dependency has a different body (must resolve to that one), and given back (must resolve to the original again)
+            cross = [(a, b) for a in keys for b in T.def_refs(uni.defs[a]) if b in uni.defs and uni.root_of[a] != uni.root_of[b]
+                     and uni.roots[uni.root_of[a]]["name"].lower() != uni.roots[uni.root_of[b]]["name"].lower()]
+            if cross:
+                a, b = rng.choice(cross)
+                scn["alt"] = {"from": a, "to": b, "order": rng.choice(["withheld,alt,orig", "alt,orig,withheld", "alt,withheld,orig", "orig,alt,orig"]), "key": rng.randrange(1 << 30)}
         if rng.random() < 0.4:
             # callers reuse their argument lists: every read of this run receives the same lookup list object (all roots)
             for op in scn["reads"]:
@@ -182,7 +209,7 @@ class C09(Check):
             # stand-alone reads (the reference for "equal to what reading that definition on its own yields")
             base_uni = Universe(scn["ws"])
             for k in base_uni.defs:
-                if poisoned([k]) or (df and df["kind"] == "dup"):
+                if poisoned([k]) or (df and df["kind"] in ("dup", "case_twin")):
                     continue
                 ri = base_uni.root_of[k]
                 op = {"op": "rf", "files": [{"p": base_uni.file_of(k)}], "roots": [{"p": base_uni.roots[ri]["dir"]}],
@@ -213,8 +240,8 @@ class C09(Check):
                     elif classify_exc(res["exc"]) != "IDE":
                         out.fail("C09.clean-failure", "read %d: %s defect reported as %s: %s" % (i, df["kind"], type(res["exc"]).__name__, str(res["exc"])[:300]), "%s:%s" % (df["kind"], type(res["exc"]).__name__))
                     continue
-                if df and df["kind"] == "dup":
-                    continue  # reads that do not reference the duplicated name: which file is used is unspecified
+                if df and df["kind"] in ("dup", "case_twin"):
+                    continue  # reads that do not reference the duplicated / case-colliding name: unspecified
                 if not res["ok"]:
                     out.fail("C09.target", "read %d: valid graph rejected: %s: %s" % (i, type(res["exc"]).__name__, str(res["exc"])[:400]), "rejected:" + type(res["exc"]).__name__)
                     continue
@@ -249,6 +276,8 @@ class C09(Check):
                     walk(t, "<top>")
                 if m.bad:
                     out.fail("C09.target", "read %d: %s" % (i, "; ".join(m.bad[:3])))
+            if scn.get("alt") and not df:
+                self._alt_lookup_phase(out, w, uni, scn["alt"])
             for mm in w.mutated_shared_args():
                 out.fail("C09.target", "a list passed as lookup_directories to several calls was modified by the calls (later resolutions depend on earlier calls): " + mm, "argument-mutated")
             out.stats["open_order_signatures"] += len(sigs)
@@ -259,6 +288,55 @@ class C09(Check):
         finally:
             w.close()
         return out
+
+
+    def _alt_lookup_phase(self, out, w, uni, alt) -> None:
+        from ..worlds.workspace import classify_exc
+        from ..worlds import realcanon
+        from ..model.render import render
+        a, b = alt["from"], alt["to"]
+        if a not in uni.defs or b not in uni.defs or b not in T.def_refs(uni.defs[a]) or uni.root_of[a] == uni.root_of[b] or T.is_service(uni.defs[b]):
+            raise InvalidScenario("alt phase needs a cross-root edge to a message")
+        ri, rj = uni.root_of[a], uni.root_of[b]
+        if any(i != rj and r0["name"].lower() == uni.roots[rj]["name"].lower() for i, r0 in enumerate(uni.roots)):
+            raise InvalidScenario("split root")
+        ws_alt = copy.deepcopy(w.scn["ws"])
+        ws_alt["roots"][rj]["dir"] = "w/dy/" + uni.roots[rj]["name"]
+        for d in ws_alt["roots"][rj]["defs"]:
+            if T.def_key(d) == b:
+                names = {it[2].lower() for s0 in d["secs"] for it in s0["items"] if it[0] in ("f", "c")}
+                if "alt_mark" in names:
+                    raise InvalidScenario("name taken")
+                d["secs"][0]["items"].append(["c", ["u", 8, "s"], "ALT_MARK", "77", [77, 1]])
+        uni_alt = Universe(ws_alt)
+        for k in uni_alt.keys_of_root(rj):
+            w.write(uni_alt.file_of(k), render(uni_alt.defs[k], None)[0])
+        others = [x for x in range(len(uni.roots)) if x not in (ri, rj)]
+        base = {"op": "rn", "root": {"p": uni.roots[ri]["dir"]}, "cwd": "", "key": alt.get("key")}
+        for step in alt["order"].split(","):
+            lk = [{"p": uni.roots[x]["dir"]} for x in others]
+            if step == "orig":
+                lk.append({"p": uni.roots[rj]["dir"]})
+            elif step == "alt":
+                lk.append({"p": ws_alt["roots"][rj]["dir"]})
+            res = w.run_read(dict(base, lookups=lk))
+            out.stats["alt_lookup_reads:" + step] += 1
+            out.obs.append(["alt", step, "ok" if res["ok"] else classify_exc(res["exc"])])
+            if step == "withheld":
+                if res["ok"]:
+                    out.fail("C09.clean-failure", "%s refers to %s, whose root namespace directory was not among the lookup directories of this call (it had been in earlier calls of the same process), but the call returned" % (a, b), "withheld-returned")
+                elif classify_exc(res["exc"]) != "IDE":
+                    out.fail("C09.clean-failure", "withheld lookup reported as %s" % type(res["exc"]).__name__, "withheld:" + type(res["exc"]).__name__)
+                continue
+            if not res["ok"]:
+                out.fail("C09.target", "read with the %s lookup directory rejected: %s: %s" % (step, type(res["exc"]).__name__, str(res["exc"])[:300]), "alt-rejected:" + type(res["exc"]).__name__)
+                continue
+            m = realcanon.Matcher((uni_alt if step == "alt" else uni).res)
+            for t in res["direct"]:
+                if str(t) in uni.defs:
+                    m.message(str(t), str(t), t, docs=False)
+            if m.bad:
+                out.fail("C09.target", "read of %s with the %s directory of namespace %s as lookup (sequence %s in one process): %s" % (uni.roots[ri]["name"], "alternative" if step == "alt" else "original", uni.roots[rj]["name"], alt["order"], "; ".join(m.bad[:3])), "alt-lookup:" + step)
 
 
 CHECK = C09()
